@@ -38,6 +38,36 @@ theorem reader_safe (ops : List Op) (t k r : Nat)
       (Sm.run step init ops).arena k = some r :=
   holder_facts (reachable_inv ops) h
 
+/-- What a holder reads is a file that was fetched for the digest it asked for (a file is
+    only stored after `fnet` succeeded, i.e. after the checksum of the received bytes matched). -/
+theorem holder_reads_requested_digest (ops : List Op) (t k r : Nat)
+    (h : (Sm.run step init ops).tasks[t]? = some (.holding k r)) :
+    ((Sm.run step init ops).rc r).key = k ∧ r < (Sm.run step init ops).nrc :=
+  let hi := (reachable_inv ops).taskKey _ (List.mem_of_getElem? h) k r rfl
+  ⟨hi.2, hi.1⟩
+
+/-- The repaired code never abandons a reference to its finalizer. -/
+theorem never_abandons_a_reference (ops : List Op) : (Sm.run step init ops).leaked = [] :=
+  (reachable_inv ops).noLeak
+
+/-- No lost waiter: a task blocked in the select waits for a flight that exists ... -/
+theorem waiter_has_flight (ops : List Op) (t k : Nat)
+    (h : (Sm.run step init ops).tasks[t]? = some (.waiting k)) :
+    (Sm.run step init ops).flight k ≠ none :=
+  (reachable_inv ops).waitFlight _ (List.mem_of_getElem? h) k rfl
+
+/-- ... and when that flight ends every waiter is handed its result: nobody keeps waiting. -/
+theorem flight_end_wakes_all_waiters (s : State) (k : Nat) (f : Flight) (res : Option Nat)
+    (hf : s.flight k = some f) (hres : resultOf f.phase = some res) :
+    ∀ p ∈ (step s (.fend k)).1.tasks, p ≠ .waiting k := by
+  intro p hp
+  simp only [step, stepG, hf, hres] at hp
+  obtain ⟨q, _, rfl⟩ := List.mem_map.1 hp
+  unfold deliver
+  split
+  · cases res <;> simp
+  · assumption
+
 /-- Closing one user's handle changes no other task. -/
 theorem close_frame (s : State) (t t' : Nat) (hne : t' ≠ t) :
     (step s (.close t)).1.tasks[t']? = s.tasks[t']? :=
